@@ -22,7 +22,7 @@ def currentCfg : Cfg := {
   extInputFieldExtended := true,
   cloneRegsDeep := true,
   cloneRegsFiltered := true,
-  cloneRegsByValue := false,
-  extKeepRegs := false
+  cloneRegsByValue := true,
+  extKeepRegs := true
 }
 end PyGql.Generated.HeapCfg
